@@ -27,6 +27,10 @@ func init() {
 			ruleNoSwallowedErrors(r, "B8", 3, true, "/internal/segment", "/transport/quic", "/transport/webtransport")
 			ruleC14B9(r)
 			ruleDurationUnits(r, "B10", "/transport/quic", "/transport/webtransport", "/internal/segment")
+			le14 := newLockEngine(r.P)
+			ruleLockPairingFor(r, le14, "B11", "a malformed datagram never leaves the reassembly mutex held: every function of package internal/segment that takes a lock releases it on every path", func(fn *ssa.Function) bool {
+				return fnPkgPath(fn) == modPath+"/internal/segment" && (le14.Info(fn).Events > 0 || len(le14.Info(fn).Reports) > 0)
+			}, 2)
 		},
 	})
 }
@@ -555,7 +559,7 @@ func ruleC14B5(r *Run) {
 }
 
 func ruleC14B6(r *Run) {
-	r.Begin("B6", "fresh sequence number per message: the sequence argument of every segment.SendTo call is directly the result of atomic.AddUint32(&transport.sequenceNumber, 1) evaluated for that call; the counter starts at MaxUint32 so that the first number is 0", 4)
+	r.Begin("B6", "fresh sequence number per message: the sequence argument of every segment.SendTo call is directly the result of atomic.AddUint32(&transport.sequenceNumber, 1) — the counter of the Transport, one per connection — evaluated for that call; the counter starts at MaxUint32 so that the first number is 0", 4)
 	p := r.P
 	sites := p.moduleCalls("/internal/segment.SendTo")
 	for i, s := range sites {
@@ -565,7 +569,9 @@ func ruleC14B6(r *Run) {
 		ok := false
 		detail := arg.String()
 		if c, isCall := arg.(*ssa.Call); isCall && isCallNamed(c, "sync/atomic.AddUint32") {
-			if k, isK := constInt(c.Call.Args[1]); isK && k == 1 && strings.HasSuffix(fieldKeyOfAddr(c.Call.Args[0]), ".sequenceNumber") && dominatesInstr(c, s) {
+			// the counter belongs to the connection (the Transport): all handles obtained from AsUnreliable() and
+			// WriteUnreliable share one reassembly map at the peer, so they share one numbering
+			if k, isK := constInt(c.Call.Args[1]); isK && k == 1 && strings.HasSuffix(fieldKeyOfAddr(c.Call.Args[0]), ".Transport.sequenceNumber") && dominatesInstr(c, s) {
 				ok = true
 			}
 		}
@@ -735,4 +741,58 @@ func ruleC14B9(r *Run) {
 		detail = "from the loop body " + posOf(p, w) + " is reached without writing the segment of this iteration: the headers already sent announce a segment that never arrives, so the receiver never completes the message"
 	}
 	r.Check(name+" writes every segment", w == nil, where, name, detail)
+	// as many iterations as announced: the test that ends the loop compares the segment index with the very value the
+	// headers carry as the last segment index (plus a constant at most) — "until nothing is left" sends one segment
+	// fewer than announced when the payload is an exact multiple of the segment size
+	var maxArg ssa.Value
+	for i, prm := range snd.Params {
+		if strings.Contains(strings.ToLower(prm.Name()), "max") && i < len(inLoopCall.Call.Args) {
+			maxArg = inLoopCall.Call.Args[i]
+		}
+	}
+	if maxArg == nil {
+		r.Undecided(name+" announced count", "the writer's parameter that carries the last segment index was not identified")
+		return
+	}
+	var strip func(v ssa.Value, d int) ssa.Value
+	strip = func(v ssa.Value, d int) ssa.Value {
+		if d > 4 {
+			return v
+		}
+		switch x := v.(type) {
+		case *ssa.Convert:
+			return strip(x.X, d+1)
+		case *ssa.ChangeType:
+			return strip(x.X, d+1)
+		case *ssa.BinOp:
+			if x.Op == token.ADD || x.Op == token.SUB {
+				if _, isK := x.Y.(*ssa.Const); isK {
+					return strip(x.X, d+1)
+				}
+			}
+		}
+		return canonVal(v)
+	}
+	want := strip(maxArg, 0)
+	okBound := false
+	for b := range loop {
+		ifs, isIf := b.Instrs[len(b.Instrs)-1].(*ssa.If)
+		if !isIf {
+			continue
+		}
+		leaves := false
+		for _, sc := range b.Succs {
+			if !loop[sc] {
+				leaves = true
+			}
+		}
+		bo, isBo := ifs.Cond.(*ssa.BinOp)
+		if !leaves || !isBo {
+			continue
+		}
+		if strip(bo.X, 0) == want || strip(bo.Y, 0) == want {
+			okBound = true
+		}
+	}
+	r.Check(name+" runs once per announced segment", okBound, posOf(p, inLoopCall), name, "the loop's exit test must compare the segment index with the last segment index that every header announces; a test on what is left of the payload ends one iteration early for exact multiples of the segment size")
 }
